@@ -329,6 +329,14 @@ def crash_scenario(sseed, kind, res, its=None):
                         raise v
                 if o2.max_trials and len(o2.trials) > o2.max_trials:
                     raise Violation("C08", f"{kind}: budget exceeded after restart", {**sig, "tag": "budget", "kind": kind})
+                if kind == "grid" and how2 == "stopped" and not sig:
+                    # "honoured in full": a grid search runs min(max_trials, number of combinations) trials, whatever their outcomes
+                    from harness.enum_ref import enumerate_space
+                    want = len(enumerate_space(specs))
+                    want = min(want, o2.max_trials) if o2.max_trials else want
+                    if len(o2.trials) < want:
+                        raise Violation("C08", f"grid: after a crash before write {k + 1} of {W} and a restart the search is over (every request answered STOPPED) with "
+                                               f"{len(o2.trials)} of {want} trials: the budget is not honoured in full", {**sig, "tag": "stopped-early", "kind": kind})
                 if kind == "hyperband" and how2 == "stopped" and not sig:
                     from harness.suite_hyperband import round0_account
                     msg = round0_account(o2, gave_up=True)       # upper bound only: the budget of a Hyperband search is its schedule
@@ -353,6 +361,60 @@ def crash_scenario(sseed, kind, res, its=None):
             raise found[0]
     finally:
         gate.remove()
+
+
+def writes_scenario(sseed, res, lines, expect):
+    """The file-level model of a tuner's search (Ktm/TunerFile.lean) against the real write sequence: a single tuner, every
+    attempt succeeds; the writes to oracle.json (with the number of ended trials in it) and to the tuner file are those of the
+    model, and after a crash before any write the restarted tuner knows what the model says it knows."""
+    R0 = random.Random(sseed)
+    kind = R0.choice(["random", "random", "grid", "bayes"])
+    specs = gen.rand_specs(R0, finite=True, nonfixed=(kind == "bayes"), maxdepth=1, top=(2, 3))
+    n = R0.randint(1, 4)
+    cfg = dict(oseed=R0.randrange(1 << 30), over=dict(max_trials=n))
+    script0 = [("float", R0.choice([0, 1, 2, 3]))] * 12
+    gate = WriteGate()
+    gate.install()
+
+    def proj(tr):
+        return [f"o{e}" if f == "oracle.json" else "t" for f, e in tr if f in ("oracle.json", "tuner0.json")]
+    try:
+        with tempdir("ktw") as d:
+            gate.trace = []
+            t = build_tuner(kind, specs, d, cfg, list(script0), [])
+            how = run_search(t, [])
+            full = list(gate.trace)
+            ran = len(t.oracle.trials)
+        if how != "stopped" or ran != len(t.oracle.end_order):
+            return False
+        P = proj(full)
+        lines.append(dict(suite="tunerfile", op="writes", n=ran))
+        want_tail = [x for x in P[4 * ran:] if x not in (f"o{ran}", "t")]
+        expect.append(",".join(P[:4 * ran]) if not want_tail else "unexpected writes after the last trial: " + ",".join(P[4 * ran:]))
+        for k in range(len(full) + 1):
+            with tempdir("ktw") as d:
+                gate.count, gate.budget, gate.trace = 0, k, []
+                try:
+                    t = build_tuner(kind, specs, d, cfg, list(script0), [])
+                    run_search(t, [])
+                except Crash:
+                    pass
+                gate.budget = None
+                kp = len(proj(gate.trace))
+                gate.trace = None
+                pdir = os.path.join(d, "p")
+                ended = len(json.load(open(os.path.join(pdir, "oracle.json")))["end_order"]) if os.path.exists(os.path.join(pdir, "oracle.json")) else 0
+                tf = os.path.exists(os.path.join(pdir, "tuner0.json"))
+                t2 = build_tuner(kind, specs, d, cfg, [], [])
+                knows = len(t2.oracle.end_order)
+            if kp > 4 * ran:
+                continue
+            lines.append(dict(suite="tunerfile", op="restart", n=ran, k=kp))
+            expect.append(f"ended={ended} tunerfile={'true' if tf else 'false'} knows={knows}")
+            res.evaluations += 1
+    finally:
+        gate.remove()
+    return True
 
 
 def run(seed, tier, n=None, kinds=KINDS, crash_n=None):
@@ -400,6 +462,14 @@ def run(seed, tier, n=None, kinds=KINDS, crash_n=None):
         except Violation as v:
             for x in [v] + list(getattr(v, "also", [])):
                 res.violations.append({"pid": x.pid, "what": x.what, "sig": x.sig, "replay": {"suite": "search", "seed": sseed, "kind": kind, "mode": "crash", "its": its}})
+    for i in range(2 if tier == "quick" else 20):
+        sseed = R.randrange(1 << 30)
+        lines, expect = [], []
+        res.scenarios += 1
+        if writes_scenario(sseed, res, lines, expect):
+            res.hist["write-sequences-compared"] += 1
+            spans.append((len(all_lines), lines, expect, {"suite": "search", "seed": sseed, "mode": "writes"}))
+            all_lines += lines
     try:
         out = run_driver(all_lines) if all_lines else []
     except Exception as e:
@@ -413,6 +483,12 @@ def run(seed, tier, n=None, kinds=KINDS, crash_n=None):
 def replay(doc):
     res = Result("search")
     try:
+        if doc.get("mode") == "writes":
+            lines, expect = [], []
+            writes_scenario(doc["seed"], res, lines, expect)
+            out = run_driver(lines) if lines else []
+            compare(res, lines, expect, out, doc)
+            return res
         if doc.get("mode") == "crash":
             crash_scenario(doc["seed"], doc["kind"], res, its=doc.get("its"))
             return res
